@@ -27,6 +27,7 @@ pub fn walk_cfg(rng: &mut Rng, which: &str) -> WalkCfg {
         allow_local_failures: false,
         manual_release: false,
         allow_not_ready: rng.chance(1, 3),
+        q2_explicit_ids: false,
         partial_progress_pct: *rng.pick(&[0u64, 30, 60]),
         enumerate: false,
         script: vec![],
